@@ -61,6 +61,7 @@ from .facts import AnalysisBroken  # noqa: E402
 def interval(conds, var, top=None):
     """[lo, hi] of the values of term `var` admitted by the decided conditions (hi None = unbounded)"""
     lo, hi = 0, top
+    excluded = set()
     for (t, v) in conds:
         if not isinstance(t, tuple):
             continue
@@ -86,10 +87,12 @@ def interval(conds, var, top=None):
                 K = other[1]
                 if v:
                     lo, hi = max(lo, K), (K if hi is None else min(hi, K))
-                elif K == lo:
-                    lo += 1
-                elif hi is not None and K == hi:
-                    hi -= 1
+                else:
+                    excluded.add(K)
+    while lo in excluded:
+        lo += 1
+    while hi is not None and hi in excluded:
+        hi -= 1
     return lo, hi
 
 
